@@ -1665,6 +1665,13 @@ void LZ4_attach_dictionary(LZ4_stream_t* workingStream, const LZ4_stream_t* dict
              dictCtx != NULL ? dictCtx->dictSize : 0);
 
     if (dictCtx != NULL) {
+        /* The dictionary replaces any pre-existing history of the working stream :
+         * forget the previous blocks, otherwise a next block contiguous to them
+         * would be compressed in prefix mode, ignoring the dictionary.
+         */
+        workingStream->internal_donotuse.dictionary = NULL;
+        workingStream->internal_donotuse.dictSize = 0;
+
         /* If the current offset is zero, we will never look in the
          * external dictionary context, since there is no value a table
          * entry can take that indicate a miss. In that case, we need
